@@ -36,8 +36,8 @@ RSA_E3 = [ksrxml.mk_key(P.rsa(1024, 3, i), alg=8) for i in range(2)]
 RSA_512 = [ksrxml.mk_key(P.rsa(1024, 65537, 10 + i), alg=10) for i in range(2)]
 RSA_BIGE = [ksrxml.mk_key(P.rsa(1024, 2**32 + 1, i), alg=8) for i in range(1)]
 RSA_2048 = [ksrxml.mk_key(P.rsa(2048, 65537, 0), alg=8)]
-EC256 = [ksrxml.mk_key(P.ec(256, i), alg=13) for i in range(2)] + [ksrxml.mk_key(P.ec_tag_carry(13, 256), alg=13)]     # [2]: the final carry of its key tag sum is discarded (RFC 4034 App. B)
-EC384 = [ksrxml.mk_key(P.ec(384, i), alg=14) for i in range(1)]
+EC256 = [ksrxml.mk_key(P.ec(256, i), alg=13) for i in range(2)] + [ksrxml.mk_key(P.ec_tag_carry(13, 256), alg=13)] + [ksrxml.mk_key(P.ec_x_first(13, 4), alg=13)]     # [3]: X begins with 0x04     # [2]: the final carry of its key tag sum is discarded (RFC 4034 App. B)
+EC384 = [ksrxml.mk_key(P.ec(384, i), alg=14) for i in range(1)] + [ksrxml.mk_key(P.ec_x_first(14, 4), alg=14)]
 P.save()
 
 ALG_OF = {"a": ("RSA", 8, 1024, 65537), "e3": ("RSA", 8, 1024, 3), "s512": ("RSA", 10, 1024, 65537), "bige": ("RSA", 8, 1024, 2**32 + 1),
@@ -79,6 +79,7 @@ try:
         (2, [[("2048", 0)], [("2048", 0), ("bige", 0)]]),
         (3, [[("ec256", 0), ("ec256", 1)], [("ec256", 1)], [("ec256", 1), ("a", 3)]]),
         (2, [[("ec256", 2), ("a", 0)], [("ec256", 2)]]),
+        (2, [[("ec256", 3), ("ec384", 1)], [("ec256", 3)]]),
     ]
     for rnd in range(SCALE):
         for n, sk in shapes:
